@@ -1259,6 +1259,8 @@ class X:
 
     def ex_Subscript(self, e):
         obj = self.eval(e.value)
+        if isinstance(obj, VNone):
+            self.raise_(TypeError, "'NoneType' object is not subscriptable")
         if isinstance(e.slice, ast.Slice):
             if e.slice.step is not None:
                 raise Unsupported('slice step')
